@@ -165,3 +165,71 @@ Theorem C03_marshal_map_code_no_crash : forall st ind outd xm xmi v f key b i c 
   fn_marshalMapToXmlIndent (PureG15.run_escapeChars st) ind outd sort_rows sort_vrows xm xmi f st false b key v i c p m t <> Crash.
 Proof. exact marshal_map_code_no_crash. Qed.
 Print Assumptions C03_marshal_map_code_no_crash.
+
+(* ---- the entry points Map.Xml / Map.XmlIndent (xml.go), translated from the current sources: which key and value the encoder is
+   called with (root selection, for every encoder behaviour), and, in compact mode with the translated encoder, exactly the bytes
+   of the model [map_xml_items] (GenProofs/PureG25.v, PureG26.v).  rt_opt: no tag = None, one tag = that tag, two or more tags =
+   the default root tag "doc" (the Go code then ignores the single-key rule). *)
+From Mxj Require Import GenProofs.PureG25 GenProofs.PureG26.
+
+Theorem C03_map_xml_is_root_sel : forall (ext : enc_fn) dec st m rt,
+  fn_Map_Xml ext dec st m rt =
+  finish st dec (ext false [] (fst (root_sel m rt)) (snd (root_sel m rt)) [] 0%Z [] 0%Z 0%Z).
+Proof. exact map_xml_is_root_sel. Qed.
+Print Assumptions C03_map_xml_is_root_sel.
+
+Theorem C03_map_xmlindent_is_root_sel : forall (ext : enc_fn) dec st m prefix indent rt,
+  fn_Map_XmlIndent ext dec st m prefix indent rt =
+  finish st dec (ext true [] (fst (root_sel_indent m rt)) (snd (root_sel_indent m rt)) indent 0%Z prefix 0%Z 0%Z).
+Proof. exact map_xmlindent_is_root_sel. Qed.
+Print Assumptions C03_map_xmlindent_is_root_sel.
+
+Theorem C03_root_sel_is_map_xml_items : forall o m rt,
+  map_xml_items o m (rt_opt rt) = enc o (snd (root_sel m rt)) (fst (root_sel m rt)).
+Proof. exact root_sel_is_map_xml_items. Qed.
+Print Assumptions C03_root_sel_is_map_xml_items.
+
+Theorem C03_root_sel_indent_is_map_xml_indent_items : forall o m rt,
+  map_xml_indent_items o m (rt_opt rt) = enc o (snd (root_sel_indent m rt)) (fst (root_sel_indent m rt)).
+Proof. exact root_sel_indent_is_map_xml_indent_items. Qed.
+Print Assumptions C03_root_sel_indent_is_map_xml_indent_items.
+
+Theorem C03_map_xml_code_is_model : forall o st, enc_view st o ->
+  forall ind outd xm xmi dec f m rt, vdepth (VMap m) <= f -> text_dom o (VMap m) = true ->
+  forall its, map_xml_items o m (rt_opt rt) = Ok its ->
+  fn_Map_Xml (run_mm ind outd xm xmi st f) dec st m rt =
+    if g_xmlCheckIsValid st && negb (acceptb dec (emit its)) then Ret ([], Some EOther) else Ret (emit its, None).
+Proof. exact map_xml_code_is_model. Qed.
+Print Assumptions C03_map_xml_code_is_model.
+
+(* ---- AnyXml (anyxml.go), translated from the current sources, with the translated Map encoder and the translated Map.Xml: in
+   compact mode exactly the bytes of the model [any_xml_items], an error where the model errs, never a panic, on every value whose
+   #text members are not containers and every tag list (GenProofs/PureG27.v; validity check off - with it on, Map.Xml's verdict
+   is the tokenizer's: PureG25.v) *)
+From Mxj Require GenProofs.PureG27.
+
+Theorem C03_any_xml_code_is_model : forall o st, enc_view st o -> g_xmlCheckIsValid st = false ->
+  forall ind outd xm xmi dec fuel xm',
+  forall v tags, vdepth v <= fuel -> text_dom o v = true ->
+  let rt := fst (PureG27.any_tags tags) in
+  let et := snd (PureG27.any_tags tags) in
+  let enc_code := PureG27.run_mm (PureG15.run_escapeChars st) ind outd xm xmi st fuel in
+  let code := fn_AnyXml (PureG27.run_xml enc_code dec st) enc_code xm' st v tags in
+  (forall its, any_xml_items o v rt et = Ok its -> code = Ret (emit its, None)) /\
+  (forall e, any_xml_items o v rt et = Err e -> exists e' b, code = Ret (b, Some e')) /\
+  any_xml_items o v rt et <> Panic /\
+  code <> Crash.
+Proof. exact PureG27.any_xml_code_is_model_all_translated. Qed.
+Print Assumptions C03_any_xml_code_is_model.
+
+Theorem C03_any_xml_code_structure : forall xmlp ext xm st v tags,
+  fn_AnyXml xmlp ext xm st v tags
+  = PureG27.any_xml_spec xmlp ext st v (fst (PureG27.any_tags tags)) (snd (PureG27.any_tags tags)).
+Proof. exact PureG27.any_xml_code_structure. Qed.
+Print Assumptions C03_any_xml_code_structure.
+
+Theorem C03_any_xml_indent_code_structure : forall xmlpi ext pind xmi st prefix indent v tags,
+  fn_AnyXmlIndent xmlpi ext pind xmi st v prefix indent tags
+  = PureG27.any_xml_indent_spec xmlpi ext pind st v prefix indent (fst (PureG27.any_tags tags)) (snd (PureG27.any_tags tags)).
+Proof. exact PureG27.any_xml_indent_code_structure. Qed.
+Print Assumptions C03_any_xml_indent_code_structure.
